@@ -120,8 +120,10 @@ def _one(c):
         got = unemb(sc.cumulative_log_sigma_integral(emb(X), coords, axis=axis, downward=down,
                                                      cumsum_method=method))
         cmp(f'{op}:{lname}:{method}', got, M @ X, scale=S @ np.abs(X))
-  R = 3.0
-  for op, method in (('GeoDense', 'dense'), ('GeoSparse', 'sparse')):
+  # the gas constant varies between calls on the same level set (the operator is R times the trapezoid rule
+  # for every R, also after it has been evaluated with another one)
+  for R in (3.0, 0.75):
+   for op, method in (('GeoDense', 'dense'), ('GeoSparse', 'sparse')):
     T = np.array(_mat(tab[op]), dtype=np.float64).reshape(K, K, K)
     M = R * np.einsum('rsa,a->rs', T, dlog)
     S = R * np.einsum('rsa,a->rs', np.abs(T), np.abs(dlog))
@@ -131,8 +133,8 @@ def _one(c):
     X2 = np.stack([X, 2 * X], axis=1)                          # K x 2 x N
     got = np.asarray(pe.get_geopotential_diff(jnp.asarray(X2), coords, R, method=method))
     cmp(f'{op}:2d', got[:, 1, :], 2 * (M @ X), scale=2 * S @ np.abs(X))
-  Gd = np.einsum('rsa,a->rs', np.array(_mat(tab['GeoDense'])).reshape(K, K, K), dlog)
-  cmp('GeoWeights', pe.get_geopotential_weights(coords, R), R * Gd, scale=R * np.abs(Gd).sum())
+   Gd = np.einsum('rsa,a->rs', np.array(_mat(tab['GeoDense'])).reshape(K, K, K), dlog)
+   cmp('GeoWeights', pe.get_geopotential_weights(coords, R), R * Gd, scale=R * np.abs(Gd).sum())
   alpha = np.array([dlog[k] / 2 for k in range(K - 1)] + [dlog[K - 1]])
   cmp('SigmaRatios', pe.get_sigma_ratios(coords), alpha, scale=np.abs(alpha))
   # attributes of the level set
